@@ -344,3 +344,43 @@ def run_instances(scratch, specs, seed=1, tier="quick", target=None, name="inst"
     if rc != 0:
         res["run_error"] = "instance driver exited with %d: %s" % (rc, err[-2000:])
     return res
+
+
+def compile_only(scratch, specs, name="cc", target=None, extra_body="fn main() {}\n", rounds=4):
+    """type-check corpus modules with the real macro; returns {mod: rustc message} for rejected ones"""
+    target = target or os.path.join(scratch, "target")
+    d = os.path.join(scratch, name)
+    live = list(specs)
+    rejected = {}
+    err = ""
+    for attempt in range(rounds):
+        parts = ["#![allow(dead_code, unused_imports, non_camel_case_types, unreachable_patterns, unused_unsafe, unused_comparisons, clippy::all)]"]
+        ranges = []
+        line = 2
+        for s in live:
+            t = s.render()
+            nl = t.count("\n") + 1
+            ranges.append((line, line + nl - 1, s.mod))
+            parts.append(t)
+            line += nl
+        parts.append(extra_body)
+        expand.write_crate(d, name, "\n".join(parts))
+        rc, out, err, dt = run(["cargo", "check", "--offline", "--quiet"], cwd=d, env={"CARGO_TARGET_DIR": target}, timeout=3600)
+        if rc == 0:
+            return rejected, None
+        bad = {}
+        for blk in re.split(r"\n(?=error)", err):
+            if not blk.startswith("error"):
+                continue
+            m = re.search(r"--> src/main\.rs:(\d+):", blk)
+            if not m:
+                continue
+            ln = int(m.group(1))
+            for (a, b, modname) in ranges:
+                if a <= ln <= b:
+                    bad.setdefault(modname, blk.strip()[:1500])
+        if not bad:
+            return rejected, err[-6000:]
+        rejected.update(bad)
+        live = [s for s in live if s.mod not in bad]
+    return rejected, "still failing after %d rounds: %s" % (rounds, err[-3000:])
